@@ -22,6 +22,8 @@ func init() {
 }
 
 func runC22(c *core.Ctx) {
+	c.Rule("ENDFLUSH", "the end-of-stream flush bound is above every event time")
+	checkFlushBound(c, "ENDFLUSH")
 	c.Rule("MKZ", "make(len) followed only by append")
 	c.Rule("ORD1", "settle up to the watermark before forwarding it")
 	c.Rule("ORD2", "final flush after the source ends")
